@@ -18,6 +18,8 @@ def run(run, model):
     run.do(rec.truth_protocol, model)
     run.do(rec.none_is_a_value, model)
     run.do(rec.unknown_stops, model)
+    run.do(msg.no_nondeterminism, model, "C07.no-history")
+    run.do(rec.comprehension_env, model, "C07.comprehension-env")
     run.do(c09.dispatch_table, model, "C07.default-error")
     run.do(msg.text_and_assembly, model)
     run.do(msg.decorator_regex, model)
